@@ -112,6 +112,8 @@ def shards(tier):
     # long lines: more than 255 frames / more than 127 labels (decided against a dynamic-programming reference, not brute force)
     for T in LONG_T[tier if tier in LONG_T else 'quick']:
         out.append({'long': T})
+    for first in range(len(ROWS3)):
+        out.append({'faults': first})
     return out
 
 
@@ -160,6 +162,11 @@ def run_shard(shard, ctx, tier):
     if 'long' in shard:
         for k in range(6):
             guarded_check(mod, {'long': shard['long'], 'k': k}, ctx)
+        return
+    if 'faults' in shard:
+        for second in range(len(ROWS3)):
+            for blank in (0, 2):
+                guarded_check(mod, {'faults': [shard['faults'], second], 'blank': blank}, ctx)
         return
     C, T, prefix = shard['C'], shard['T'], shard['prefix']
     dt = shard.get('dtype', 'f64')
@@ -265,8 +272,51 @@ def check_long(case, ctx):
     ctx.nontrivial(('long', T, case['k']))
 
 
+def check_faults(case, ctx):
+    """environment answers (mc/faults.py): every single failing array allocation made by force_align / align_text themselves.  The call may report the
+    failure; an alignment it returns nevertheless collapses to the labels and has the minimum cost"""
+    from pero_ocr.core.force_alignment import force_align, align_text
+    from mc import faults
+    M = [ROWS3[i] for i in case['faults']]
+    blank = case['blank']
+    A = np.asarray(M, dtype=np.float64)
+    best = brute(M, blank)
+    ctx.state(('faults', tuple(case['faults']), blank))
+    inj = faults.Injector(faults.numpy_allocators(), faults.memory_error)
+    for labels in label_space(3, len(M), blank):
+        key = tuple(labels)
+        if blank in labels or key not in best or not best[key] < INF:
+            continue
+        for fn in ('force_align', 'align_text'):
+            call = (lambda: [int(x) for x in force_align(A.copy(), list(labels), blank)]) if fn == 'force_align' else \
+                (lambda: [int(x) for x in align_text(A.copy(), np.asarray(labels), blank)])
+            for kk, site, (what, val) in inj.explore(call):
+                ctx.executed()
+                if kk is None:
+                    if what != 'ok':
+                        raise val
+                    ref = val
+                    continue
+                ctx.tag('fault-points')
+                if what == 'raised':
+                    ctx.tag('failure-reported')
+                    continue
+                ctx.nontrivial(('fault', tuple(case['faults']), blank, key, fn, kk), 'alignment-returned-despite-a-failed-allocation')
+                if fn == 'force_align':
+                    ok = len(val) == len(M) and collapse(val, blank) == key and nabs(sum(M[t][s_] for t, s_ in enumerate(val)) - best[key]) <= 1e-9
+                else:
+                    ok = val == ref or (len(val) == len(labels) and all(0 <= p < len(M) for p in val) and all(a < b for a, b in zip(val, val[1:])))
+                if not ok:
+                    ctx.violation('minimum-cost', f'{ID}/{fn}/result-returned-after-a-failed-allocation',
+                                  f'{fn}(costs {M}, labels {labels}, blank {blank}) with the allocation #{kk} ({site[2]} in {site[0]}:{site[1]}) raising MemoryError '
+                                  f'returned {val} (fault-free result {ref}, minimum cost {best[key]})')
+                    return
+
+
 def check_case(case, ctx):
     from pero_ocr.core.force_alignment import force_align, align_text
+    if 'faults' in case:
+        return check_faults(case, ctx)
     if 'long' in case:
         return check_long(case, ctx)
     C, rows, blank = case['C'], case['rows'], case['blank']
@@ -431,6 +481,6 @@ def describe(tier):
                         'ties: any minimum-cost alignment and any most-confident frame is accepted',
                         'per-frame confidence = max over symbols of the frame (as stated: "where the network is most confident")'],
         'min_nontrivial': 100,
-        'required_tags': ['more-than-255-frames', 'unusual-cost-magnitudes', 'repeated-label-aligned', 'multi-frame-char-with-distinct-confidences', 'only-infinite-alignments',
+        'required_tags': ['fault-points', 'failure-reported', 'more-than-255-frames', 'unusual-cost-magnitudes', 'repeated-label-aligned', 'multi-frame-char-with-distinct-confidences', 'only-infinite-alignments',
                           'non-float64-cost-matrices', 'wide-alphabet-small-int-labels'],
     }
